@@ -66,12 +66,13 @@ theorem cn_addConstraintNoCheck (hUC : UpdateCongruencesSpec) (g : Grid) (c : Co
         rw [if_neg ht, ht']
         exact ⟨⟨fun _ => rfl, fun _ => rfl⟩, fun _ => rfl, hI, rfl, (fun h => by cases h)⟩
 
-/-- Grid_inlines.hh `add_constraint(c)`: throws on a dimension mismatch, and on a non-trivial inequality when the
-    receiver is not marked empty; the object is then unchanged -/
+theorem cn_hardIneq_eq (c : Con) : cn_hardIneq c = c.isHardInequality := rfl
+
+/-- Grid_inlines.hh `add_constraint(c)` (after 680f35a): throws on a dimension mismatch and on a non-trivial inequality,
+    whether or not the receiver is marked empty; the object is then unchanged -/
 theorem cn_addConstraint (hUC : UpdateCongruencesSpec) (g : Grid) (c : Con) (hI : GridInv g)
     (hc : c.spaceDim ≤ g.spaceDim → cn_ConOK g.spaceDim g.sem c) :
-    ((addConstraint g c).thrown = true ↔
-      (g.spaceDim < c.spaceDim ∨ (g.st.empty = false ∧ cn_hardIneq c = true))) ∧
+    ((addConstraint g c).thrown = true ↔ (g.spaceDim < c.spaceDim ∨ cn_hardIneq c = true)) ∧
     ((addConstraint g c).thrown = true → (addConstraint g c).g = g) ∧
     (g.st.empty = true → (addConstraint g c).g = g) ∧
     GridInv (addConstraint g c).g ∧ (addConstraint g c).g.spaceDim = g.spaceDim ∧
@@ -84,17 +85,21 @@ theorem cn_addConstraint (hUC : UpdateCongruencesSpec) (g : Grid) (c : Con) (hI 
     by_cases hemp : g.st.empty = true
     · have : (!g.markedEmpty) = false := by simp [Grid.markedEmpty, hemp]
       rw [this, if_neg Bool.false_ne_true]
-      refine ⟨⟨(fun h => by cases h), ?_⟩, fun _ => rfl, fun _ => rfl, hI, rfl, fun _ => ?_⟩
-      · rintro (h | ⟨h, _⟩)
-        · exact absurd h hd
-        · rw [hemp] at h; cases h
-      · rw [cn_sem_empty g hemp, Set.empty_inter]
+      by_cases hh : c.isHardInequality = true
+      · rw [if_pos hh]
+        exact ⟨⟨fun _ => Or.inr hh, fun _ => rfl⟩, fun _ => rfl, fun _ => rfl, hI, rfl, (fun h => by cases h)⟩
+      · rw [if_neg hh]
+        refine ⟨⟨(fun h => by cases h), ?_⟩, fun _ => rfl, fun _ => rfl, hI, rfl, fun _ => ?_⟩
+        · rintro (h | h)
+          · exact absurd h hd
+          · exact absurd h hh
+        · rw [cn_sem_empty g hemp, Set.empty_inter]
     · have hne : g.st.empty = false := by simpa using hemp
       have : (!g.markedEmpty) = true := by simp [Grid.markedEmpty, hne]
       rw [this, if_pos rfl]
       obtain ⟨h1, h2, h3, h4, h5⟩ := cn_addConstraintNoCheck hUC g c hI hne (hc (by omega))
-      refine ⟨⟨fun h => Or.inr ⟨hne, h1.mp h⟩, ?_⟩, h2, fun h => absurd h hemp, h3, h4, h5⟩
-      rintro (h | ⟨_, h⟩)
+      refine ⟨⟨fun h => Or.inr (h1.mp h), ?_⟩, h2, fun h => absurd h hemp, h3, h4, h5⟩
+      rintro (h | h)
       · exact absurd h hd
       · exact h1.mpr h
 
